@@ -477,6 +477,44 @@ Proof.
   - unfold after in *. apply Z.gtb_lt in Ha. apply Z.gtb_lt.
     pose proof (threshold_mono latest d d' Hle). lia.
 Qed.
+(* ---- civil date arithmetic: days_from_civil inverts civil ---- *)
+Lemma civil_inverse z :
+  days_from_civil (fst (fst (civil z))) (snd (fst (civil z))) (snd (civil z)) = z
+  /\ 1 <= snd (fst (civil z)) <= 12 /\ 1 <= snd (civil z) <= 31.
+Proof.
+  unfold civil.
+  set (z' := z + 719468).
+  set (era := z' / 146097).
+  set (doe := z' - era * 146097).
+  assert (Hdoe : 0 <= doe <= 146096) by (unfold doe, era; lia).
+  set (yoe := (doe - doe / 1460 + doe / 36524 - doe / 146096) / 365).
+  assert (Hyoe : 0 <= yoe <= 399) by (unfold yoe; lia).
+  set (doy := doe - (365 * yoe + yoe / 4 - yoe / 100)).
+  assert (Hdoy : 0 <= doy <= 365) by (unfold doy, yoe; lia).
+  set (mp := (5 * doy + 2) / 153).
+  assert (Hmp : 0 <= mp <= 11) by (unfold mp; lia).
+  set (d := doy - (153 * mp + 2) / 5 + 1).
+  assert (Hd : 1 <= d <= 31) by (unfold d, mp; lia).
+  cbn [fst snd]. unfold days_from_civil.
+  destruct (Z.ltb_spec mp 10) as [Hm|Hm].
+  - (* March .. December *)
+    destruct (Z.leb_spec (mp + 3) 2) as [H1|H1]; [lia|].
+    destruct (Z.gtb_spec (mp + 3) 2) as [H2|H2]; [|lia].
+    split; [|lia].
+    replace (mp + 3 - 3) with mp by lia.
+    assert (E1 : (yoe + era * 400) / 400 = era) by lia. rewrite E1.
+    replace (yoe + era * 400 - era * 400) with yoe by lia.
+    unfold d, doy, doe, z'. lia.
+  - (* January, February of the next civil year *)
+    destruct (Z.leb_spec (mp - 9) 2) as [H1|H1]; [|lia].
+    destruct (Z.gtb_spec (mp - 9) 2) as [H2|H2]; [lia|].
+    split; [|lia].
+    replace (mp - 9 + 9) with mp by lia.
+    replace (yoe + era * 400 + 1 - 1) with (yoe + era * 400) by lia.
+    assert (E1 : (yoe + era * 400) / 400 = era) by lia. rewrite E1.
+    replace (yoe + era * 400 - era * 400) with yoe by lia.
+    unfold d, doy, doe, z'. lia.
+Qed.
 End DurMono.
 
 Lemma implb_list_map {A} (f g : A -> bool) l :
@@ -495,6 +533,129 @@ Proof.
   intros Hle Hnn. unfold spec_keep; cbn [p_tags p_within p_withins p_counts].
   apply implb_orl; [apply implb_list_refl|]. apply implb_orl; [|apply implb_list_refl].
   unfold rule_within. apply implb_list_map. intros s. apply DurMono.in_window_mono; assumption.
+Qed.
+
+(* ---- monotonicity in the durations of the keep-within-<period> rules ----
+   on a newest-first list the window of a within rule is a prefix; a longer duration extends the
+   prefix, the run heads inside the old window stay what they were *)
+Fixpoint prefix_shape (bs : list bool) : bool :=
+  match bs with
+  | [] => true
+  | b :: r => match r with
+              | [] => true
+              | b' :: _ => implb b' b && prefix_shape r
+              end
+  end.
+
+Lemma prefix_shape_false r : prefix_shape (false :: r) = true -> r = map (fun _ => false) r.
+Proof.
+  induction r as [|b r IH]; intros H; [reflexivity|].
+  cbn [prefix_shape] in H. apply andb_true_iff in H as [H1 H2]. destruct b; [discriminate|].
+  cbn [map]. f_equal. apply IH, H2.
+Qed.
+
+Lemma prefix_shape_tail b r : prefix_shape (b :: r) = true -> prefix_shape r = true.
+Proof. destruct r; [reflexivity|]. cbn [prefix_shape]. intros H. apply andb_true_iff in H as [_ H]. exact H. Qed.
+
+Lemma window_prefix latest d l : sorted_desc l = true -> prefix_shape (map (in_window latest d) l) = true.
+Proof.
+  induction l as [|x l IH]; intros Hs; [reflexivity|]. destruct l as [|y l']; [reflexivity|].
+  cbn [sorted_desc] in Hs. apply andb_true_iff in Hs as [H1 H2].
+  change (map (in_window latest d) (x :: y :: l')) with
+    (in_window latest d x :: in_window latest d y :: map (in_window latest d) l').
+  cbn [prefix_shape]. apply andb_true_iff. split; [|apply IH, H2].
+  unfold in_window. destruct (negb (dur_zero d)); [|reflexivity]. cbn [andb].
+  destruct (after (sn_time y) (threshold latest d)) eqn:E; [|reflexivity]. cbn [implb].
+  unfold after in *. apply Z.gtb_lt in E. apply negb_true_iff in H1.
+  destruct (Z.gtb_spec (inst (sn_time y)) (inst (sn_time x))); [discriminate|].
+  apply Z.gtb_lt. lia.
+Qed.
+
+Lemma wheads_all_false ks : forall prev win, win = map (fun _ => false) win ->
+  wheads_go prev ks win = map (fun _ => false) (wheads_go prev ks win).
+Proof.
+  induction ks as [|v r IH]; intros prev [|w wr] H; try reflexivity.
+  cbn [map] in H. injection H as Hw Hr. subst w. cbn [wheads_go map]. f_equal.
+  apply IH. exact Hr.
+Qed.
+
+Lemma or_last_all_false hs : forall win, hs = map (fun _ => false) hs -> win = map (fun _ => false) win ->
+  or_last hs win = map (fun _ => false) (or_last hs win).
+Proof.
+  induction hs as [|h r IH]; intros [|w wr] H1 H2; try reflexivity.
+  cbn [map] in H1, H2. injection H1 as Hh Hr. injection H2 as Hw Hwr.
+  subst h w. cbn [or_last orb andb map]. f_equal. apply IH; assumption.
+Qed.
+
+Lemma implb_list_allfalse a b : a = map (fun _ => false) a -> length a = length b -> implb_list a b = true.
+Proof. intros -> H. apply implb_list_false. rewrite map_length in H. exact H. Qed.
+
+Lemma len_or_last hs : forall win, length win = length hs -> length (or_last hs win) = length hs.
+Proof.
+  induction hs as [|h r IH]; intros [|w wr] H; try discriminate; [reflexivity|].
+  cbn [or_last length]. f_equal. apply IH. cbn in H; congruence.
+Qed.
+
+Lemma wrule_mono ks : forall prev win win',
+  length win = length ks -> length win' = length ks ->
+  prefix_shape win = true -> implb_list win win' = true ->
+  implb_list (or_last (wheads_go prev ks win) win) (or_last (wheads_go prev ks win') win') = true.
+Proof.
+  induction ks as [|v r IH]; intros prev [|w wr] [|w' wr'] L1 L2 P I; try discriminate; [reflexivity|].
+  cbn [implb_list] in I. apply andb_true_iff in I as [I1 I2].
+  injection L1 as L1. injection L2 as L2.
+  destruct w.
+  - destruct w'; [|discriminate]. cbn [wheads_go or_last implb_list andb].
+    rewrite (is_nil_len (wheads_go v r wr) (wheads_go v r wr'))
+      by (rewrite !len_wheads_go by assumption; reflexivity).
+    rewrite (IH v wr wr' L1 L2 (prefix_shape_tail _ _ P) I2).
+    destruct (negb (v =? prev) || is_nil (wheads_go v r wr')); reflexivity.
+  - (* outside the old window: nothing more is kept by the old rule *)
+    pose proof (prefix_shape_false wr P) as Hf.
+    apply implb_list_allfalse.
+    + change (or_last (wheads_go prev (v :: r) (false :: wr)) (false :: wr))
+        with (false || (false && is_nil (wheads_go prev r wr)) :: or_last (wheads_go prev r wr) wr).
+      cbn [orb andb map]. f_equal.
+      apply or_last_all_false; [apply wheads_all_false, Hf | exact Hf].
+    + rewrite !len_or_last; rewrite ?len_wheads_go; cbn [length]; congruence.
+Qed.
+
+Lemma in_window_implb latest d d' l :
+  DurMono.le_dur d d' -> DurMono.dur_nonneg d ->
+  implb_list (map (in_window latest d) l) (map (in_window latest d') l) = true.
+Proof. intros H1 H2. apply implb_list_map. intros s. apply DurMono.in_window_mono; assumption. Qed.
+
+Lemma rule_wbucket_mono latest k d d' l :
+  sorted_desc l = true -> DurMono.le_dur d d' -> DurMono.dur_nonneg d ->
+  implb_list (rule_wbucket latest k d l) (rule_wbucket latest k d' l) = true.
+Proof.
+  intros Hs H1 H2. unfold rule_wbucket. apply wrule_mono.
+  - rewrite map_length. unfold keys_of. rewrite len_keys_from. reflexivity.
+  - rewrite map_length. unfold keys_of. rewrite len_keys_from. reflexivity.
+  - apply window_prefix, Hs.
+  - apply in_window_implb; assumption.
+Qed.
+
+Lemma wbucket_rules_mono latest ds : forall ds' k l,
+  sorted_desc l = true ->
+  Forall2 (fun d d' => DurMono.le_dur d d' /\ DurMono.dur_nonneg d) ds ds' ->
+  implb_list (wbucket_rules latest k ds l) (wbucket_rules latest k ds' l) = true.
+Proof.
+  induction ds as [|d r IH]; intros ds' k l Hs H; inversion H; subst; cbn [wbucket_rules].
+  - apply implb_list_refl.
+  - apply implb_orl; [apply rule_wbucket_mono; tauto | apply IH; assumption].
+Qed.
+
+(* lengthening any keep-within-<period> duration never drops a kept snapshot (newest-first list) *)
+Theorem spec_keep_mono_withins latest p ds' l :
+  sorted_desc l = true ->
+  Forall2 (fun d d' => DurMono.le_dur d d' /\ DurMono.dur_nonneg d) (p_withins p) ds' ->
+  implb_list (spec_keep latest p l)
+             (spec_keep latest (mkPol (p_counts p) (p_within p) ds' (p_tags p)) l) = true.
+Proof.
+  intros Hs H. unfold spec_keep; cbn [p_tags p_within p_withins p_counts].
+  apply implb_orl; [apply implb_list_refl|]. apply implb_orl; [apply implb_list_refl|].
+  apply implb_orl; [apply implb_list_refl | apply wbucket_rules_mono; assumption].
 Qed.
 
 (* ---- the tag rule and HasTags ---- *)
